@@ -479,6 +479,8 @@ def _maybe_apply_am_pm(t: Time, ampm_match: str) -> Time:
         return t
     if ampm_match is None:
         return t
+    # the marker group can carry the blank that separates it from "uhr"/"h"
+    ampm_match = ampm_match.strip()
     if ampm_match.lower().startswith("a") and t.hour == 12:
         # 12 am is midnight
         return Time(hour=0, minute=t.minute)
